@@ -56,23 +56,68 @@ SetAll(t, v, S) == IF S = {} THEN v
                    ELSE LET i == CHOOSE x \in S : TRUE IN
                         SetAll(t, DoSet(t, v, i, CHOOSE x \in SetVals(t.fields[i]) : TRUE), S \ {i})
 
+(* ---- accessors of a nested struct whose field mask is an OUTER parameter fed by a field of the parent:  *)
+(* SetX(v, &parent.mask) / ClearX(&parent.mask) set / clear the bit in the parent's # field; called with  *)
+(* a nil mask pointer they touch the value and the TL2 presence only.                                     *)
+NestedElig(tn) ==
+  LET t == TY(tn) IN
+  { <<j, i>> \in (1..Len(t.fields)) \X (1..8) :
+      LET fj == t.fields[j] IN
+      /\ ~IsOpt(fj) /\ fj.bare /\ TY(fj.t).k = "struct" /\ ~TY(fj.t).typedef /\ TY(fj.t).tl2
+      /\ i <= Len(TY(fj.t).fields)
+      /\ LET ct == TY(fj.t)  c == ct.fields[i] IN
+         /\ c.mask.k = "param" /\ ~c.omit
+         /\ (c.isbit \/ (TY(c.t).k = "prim" /\ TY(c.t).prim # "bit"))
+         /\ c.mask.i + 1 <= Len(fj.na) /\ fj.na[c.mask.i + 1].k = "field"
+         /\ LET m == fj.na[c.mask.i + 1].i + 1 IN
+            /\ ~IsOpt(t.fields[m])
+            /\ \A i2 \in 1..Len(ct.fields) : (i2 # i /\ ct.fields[i2].mask.k = "param" /\ ct.fields[i2].mask.i = c.mask.i) => ct.fields[i2].bit # c.bit
+            /\ \A j2 \in 1..Len(t.fields) : ~(t.fields[j2].mask.k = "field" /\ t.fields[j2].mask.i + 1 = m)
+            \* the parent's # must feed this child only, and only as this mask
+            /\ \A j2 \in 1..Len(t.fields) : \A a \in 1..Len(t.fields[j2].na) :
+                   (t.fields[j2].na[a].k = "field" /\ t.fields[j2].na[a].i + 1 = m) => (j2 = j /\ a = c.mask.i + 1)
+            /\ \A i2 \in 1..Len(ct.fields) : \A a \in 1..Len(ct.fields[i2].na) :
+                   ~(ct.fields[i2].na[a].k = "param" /\ ct.fields[i2].na[a].i = c.mask.i) }
+NMask(t, j, i) == t.fields[j].na[TY(t.fields[j].t).fields[i].mask.i + 1].i + 1
+DoSetN(t, v, j, i, x, wm) ==
+  LET c == TY(t.fields[j].t).fields[i]
+      v1 == [v EXCEPT ![j] = [@ EXCEPT ![i] = Pres(x)]]
+  IN IF wm THEN [v1 EXCEPT ![NMask(t, j, i)] = SetBit(@, c.bit, TRUE)] ELSE v1
+DoClearN(t, v, j, i, wm) ==
+  LET c == TY(t.fields[j].t).fields[i]
+      v1 == [v EXCEPT ![j] = [@ EXCEPT ![i] = Absent]]
+  IN IF wm THEN [v1 EXCEPT ![NMask(t, j, i)] = SetBit(@, c.bit, FALSE)] ELSE v1
+
 Init == \E n \in StructTops :
-          /\ Elig(n) # {}
+          /\ (Elig(n) # {} \/ NestedElig(n) # {})
           /\ st \in {[tn |-> n, v |-> Default(n, <<>>), ops |-> <<>>, start |-> "default"],
                      [tn |-> n, v |-> SetAll(TY(n), Default(n, <<>>), Elig(n)), ops |-> <<>>, start |-> "allset"]}
 
 Set(i, x) == st' = [st EXCEPT !.v = DoSet(TY(st.tn), st.v, i, x),
-                              !.ops = Append(@, [op |-> "set", f |-> TY(st.tn).fields[i].n, i |-> i, x |-> x, bit |-> TY(st.tn).fields[i].isbit])]
+                              !.ops = Append(@, [op |-> "set", f |-> TY(st.tn).fields[i].n, i |-> i, x |-> x, bit |-> TY(st.tn).fields[i].isbit, parent |-> "", mask |-> ""])]
 Clear(i) == st' = [st EXCEPT !.v = DoClear(TY(st.tn), st.v, i),
-                             !.ops = Append(@, [op |-> "clear", f |-> TY(st.tn).fields[i].n, i |-> i, x |-> <<>>, bit |-> TY(st.tn).fields[i].isbit])]
+                             !.ops = Append(@, [op |-> "clear", f |-> TY(st.tn).fields[i].n, i |-> i, x |-> <<>>, bit |-> TY(st.tn).fields[i].isbit, parent |-> "", mask |-> ""])]
+SetN(j, i, x, wm) ==
+  LET t == TY(st.tn)  c == TY(t.fields[j].t).fields[i] IN
+  st' = [st EXCEPT !.v = DoSetN(t, st.v, j, i, x, wm),
+                   !.ops = Append(@, [op |-> "setn", f |-> c.n, i |-> i, x |-> x, bit |-> c.isbit,
+                                      parent |-> t.fields[j].n, mask |-> IF wm THEN t.fields[NMask(t, j, i)].n ELSE ""])]
+ClearN(j, i, wm) ==
+  LET t == TY(st.tn)  c == TY(t.fields[j].t).fields[i] IN
+  st' = [st EXCEPT !.v = DoClearN(t, st.v, j, i, wm),
+                   !.ops = Append(@, [op |-> "clearn", f |-> c.n, i |-> i, x |-> <<>>, bit |-> c.isbit,
+                                      parent |-> t.fields[j].n, mask |-> IF wm THEN t.fields[NMask(t, j, i)].n ELSE ""])]
 Next == /\ Len(st.ops) < K
-        /\ \E i \in Elig(st.tn) : (\E x \in SetVals(TY(st.tn).fields[i]) : Set(i, x)) \/ Clear(i)
+        /\ \/ \E i \in Elig(st.tn) : (\E x \in SetVals(TY(st.tn).fields[i]) : Set(i, x)) \/ Clear(i)
+           \/ \E p \in NestedElig(st.tn), wm \in BOOLEAN :
+                 (\E x \in SetVals(TY(TY(st.tn).fields[p[1]].t).fields[p[2]]) : SetN(p[1], p[2], x, wm)) \/ ClearN(p[1], p[2], wm)
 
 ---------------------------------------------------------------------------
 Obs(tn, v) ==
   LET t == TY(tn) IN
   [isset |-> [i \in Elig(tn) |-> IsP(v[i])],
    names |-> [i \in Elig(tn) |-> t.fields[i].n],
+   nested |-> { [parent |-> t.fields[p[1]].n, f |-> TY(t.fields[p[1]].t).fields[p[2]].n, set |-> IsP(v[p[1]][p[2]])] : p \in NestedElig(tn) },
    tl1 |-> IF t.origin2 THEN <<>> ELSE Enc1(tn, <<>>, v, TRUE).b,
    hastl2 |-> t.tl2,
    tl2 |-> IF t.tl2 THEN Enc2(tn, v, FALSE) ELSE <<>>,
@@ -86,10 +131,10 @@ FrameOther ==
   [][\A j \in 1..Len(TY(st.tn).fields) :
         LET o == st'.ops[Len(st'.ops)]
             f == TY(st.tn).fields[o.i] IN
-        (j # o.i /\ ~(f.mask.k = "field" /\ j = MaskIdx(f))) => st'.v[j] = st.v[j]]_st
+        (o.parent = "" /\ j # o.i /\ ~(f.mask.k = "field" /\ j = MaskIdx(f))) => st'.v[j] = st.v[j]]_st
 (* after Set the field is decoded back as present with that value from TL1 and TL2, after Clear as absent *)
 Effect ==
-  Len(st.ops) > 0 =>
+  Len(st.ops) > 0 /\ st.ops[Len(st.ops)].parent = "" =>
     LET o == st.ops[Len(st.ops)]  t == TY(st.tn)
         want == IF o.op = "set" THEN Pres(o.x) ELSE Absent
         e1 == Enc1(st.tn, <<>>, st.v, TRUE)
